@@ -45,7 +45,7 @@ LEVEL_NOTE = ("Partial by nature: that compile(..., PyCF_ONLY_AST) / ast.parse e
               "threads and code that keeps a reference to the original sys.path list object are outside the model. C15_sys_path_restored needs "
               "non-empty search paths when nothing is found on disk (sys_path() without paths is a no-op; sharpness shown by an Example).")
 MODEL = ("Model.C15_loader", "run_C15")
-COQ_TARGETS = ["Proofs/C15_loader.vo"]
+COQ_TARGETS = ["Proofs/C15_loader.vo", "Proofs/C15_restore.vo", "Proofs/C15_failures.vo"]
 RULE = ("systematic: a fixed package (top, a, sub/__init__, sub/k, compiled .so and .pyc submodules, stub) with one fault kind x one placement x "
         "with/without sys.path effects, loaded under allow / force / both / neither; random: package trees (regular / namespace / single module / "
         "stub-only / zipped / top-level .pyc / garbage .so / absent; .py .pyi .pyc .so submodules, sub-packages, in-package and separate stubs, "
@@ -64,17 +64,22 @@ ASSUMPTIONS = ["imported code reaches sys.path only through the name sys.path (m
                "search paths are non-empty when the package is not found on disk"]
 TRANSLATOR_NAME = "harness/translate/c15_ladder.py"
 
-FAULTS = ["RuntimeError", "SystemExit", "sysexit_call", "KeyboardInterrupt", "ModuleNotFoundError", "ImportError"]
+FAULTS = ["RuntimeError", "SystemExit", "sysexit_call", "KeyboardInterrupt", "ModuleNotFoundError", "ImportError", "PanicException", "OSError"]
 FAULT_EXN = {"RuntimeError": "RuntimeError", "SystemExit": "SystemExit", "sysexit_call": "SystemExit", "KeyboardInterrupt": "KeyboardInterrupt",
-             "ModuleNotFoundError": "ModuleNotFoundError", "ImportError": "ImportError"}
+             "ModuleNotFoundError": "ModuleNotFoundError", "ImportError": "ImportError", "PanicException": "PanicException", "OSError": "OSError"}
+PANIC = 'type("PanicException", (BaseException,), {})("c15 panic")'     # a BaseException subclass of the analysed code (pyo3)
+RAISE = {"SystemExit": "SystemExit(7)", "RuntimeError": 'RuntimeError("c15 walk")', "KeyboardInterrupt": "KeyboardInterrupt()", "OSError": 'OSError("c15 os")',
+         "ImportError": 'ImportError("c15 late import")', "PanicException": PANIC}
 FAULT_CODE = {"RuntimeError": 'raise RuntimeError("c15 boom")', "SystemExit": "raise SystemExit(3)", "sysexit_call": "_s.exit(4)",
               "KeyboardInterrupt": "raise KeyboardInterrupt", "ModuleNotFoundError": '__import__("c15_missing_dependency_xyz")',
-              "ImportError": 'raise ImportError("c15 import error")'}
+              "ImportError": 'raise ImportError("c15 import error")', "PanicException": "raise " + PANIC, "OSError": 'raise OSError("c15 os error")'}
+WALK_FAULTS = ["SystemExit", "RuntimeError", "KeyboardInterrupt", "OSError", "ImportError", "PanicException"]
+CONVERTED_WALK = ("SystemExit", "ImportError")    # walk faults the handlers of _inspect_module turn into ImportError (walk_convertible in Coq)
 EFFECTS = [["ins0", "/c15x/e0"], ["app", "/c15x/e1"], ["clear"], ["rebind", ["/c15x/r0", "/c15x/r1"]], ["rebind", []], ["ins0", "/c15x/e2"]]
 SO_NAME = "{}.cpython-312-x86_64-linux-gnu.so"
 SUFFIX = {"init": ".py", "py": ".py", "pyi": ".pyi", "initpyi": ".pyi", "pyc": ".pyc", "so": ".so"}
 ALL_EXN = ["SystemExit", "KeyboardInterrupt", "RuntimeError", "AttributeError", "ImportError", "ModuleNotFoundError", "SyntaxError",
-           "UnicodeDecodeError", "OSError", "FileNotFoundError", "LoadingError"]
+           "UnicodeDecodeError", "OSError", "FileNotFoundError", "LoadingError", "PanicException"]
 
 
 def translate(ctx):
@@ -99,7 +104,7 @@ def rand_body(rng, m, p_fault):
     if r < p_fault:
         m["fault"] = rng.choice(FAULTS)
     elif r < p_fault + 0.07:
-        m["walk"] = "SystemExit" if rng.random() < 0.75 else "RuntimeError"
+        m["walk"] = "SystemExit" if rng.random() < 0.55 else rng.choice(WALK_FAULTS)
     if m["kind"] in ("init", "py", "pyi", "initpyi") and rng.random() < 0.07:
         m["vfault"] = "syntax" if rng.random() < 0.65 else "unicode"
         m["effects"], m["fault"], m["walk"] = [], None, None
@@ -126,7 +131,7 @@ def add_hooks(rng, mods):
     for m in mods:
         par = by.get(tuple(m["parts"][:-1]))
         if par is not None and m is not par and (m["fault"] or m["kind"] == "so" or m["vfault"]) and rng.random() < 0.35:
-            par["hooks"][m["parts"][-1]] = rng.choice(["SystemExit", "RuntimeError", "KeyboardInterrupt"])
+            par["hooks"][m["parts"][-1]] = rng.choice(["SystemExit", "RuntimeError", "KeyboardInterrupt", "PanicException"])
 
 
 def small_ext(rng, name, sp, deps=(), p_fault=0.2):
@@ -220,7 +225,7 @@ def systematic_trees():
     out = []
     k = 0
     for place in (["p"], ["p", "a"], ["p", "sub"], ["p", "sub", "k"]):
-        for fault in FAULTS + ["syntax", "unicode", "walkexit"]:
+        for fault in FAULTS + ["syntax", "unicode", "walk:SystemExit", "walk:OSError", "walk:PanicException", "walk:ImportError"]:
             for eff in (False, True):
                 if eff and fault in ("syntax", "unicode"):
                     continue
@@ -230,8 +235,8 @@ def systematic_trees():
                     if m["parts"] == place and m["kind"] in ("init", "py"):
                         if fault in ("syntax", "unicode"):
                             m["vfault"] = fault
-                        elif fault == "walkexit":
-                            m["walk"] = "SystemExit"
+                        elif fault.startswith("walk:"):
+                            m["walk"] = fault[5:]
                         else:
                             m["fault"] = fault
                         if eff:
@@ -273,9 +278,9 @@ def source_of(pkg, m):
         g = ["def __getattr__(name):"]
         if m["walk"]:
             lines.append(f'def __dir__():\n    return ["VALUE_{last}", "c15boom"]')
-            g.append('    if name == "c15boom":\n        raise ' + ("SystemExit(7)" if m["walk"] == "SystemExit" else 'RuntimeError("c15 walk")'))
+            g.append('    if name == "c15boom":\n        raise ' + RAISE[m["walk"]])
         for part, x in sorted(m["hooks"].items()):
-            g.append(f'    if name == {part!r}:\n        raise ' + {"SystemExit": "SystemExit(8)", "RuntimeError": 'RuntimeError("c15 attr")', "KeyboardInterrupt": "KeyboardInterrupt"}[x])
+            g.append(f'    if name == {part!r}:\n        raise ' + RAISE[x])
         g.append("    raise AttributeError(name)")
         lines.append("\n".join(g))
     exported = [f"VALUE_{last}"] + ([f"thing_{pkg['name']}"] if is_top else [])
@@ -423,6 +428,9 @@ def world_of(base, tree, case, order=None):
     names = sorted({p["name"] for p in tree["pkgs"]})
     for n in names:
         is_root = n == tree["root"]
+        if case["by"] == "stale_search":       # nothing can be found in search paths that do not exist
+            finds.append([n, ["missing", []]])
+            continue
         finds.append([n, reorder(found_of(base, tree, n, case["opts"]["find_stubs_package"] and is_root, hidden=is_root and case["by"] == "hidden"), order or {})])
     if case["by"] == "missing_path":
         finds.append(["<missing-path>", ["pathmissing"]])
@@ -483,11 +491,17 @@ def make_case(base, tree, cid, opts, by):
     elif by == "hidden":
         search = [s for s in search if s != sproot]
         opts = dict(opts, try_relative_path=False)
-    eff_search = list(search)
+    elif by == "stale_search":      # every configured search path is missing (stale configuration, relative `src` from the wrong directory)
+        search = [str(base / "stale0"), str(base / "stale1" / "src")]
+        opts = dict(opts, try_relative_path=False)
+    elif by == "default_search":    # search_paths=None: the finder takes sys.path itself
+        search = None
+    eff_search = list(search) if search is not None else None
     if by in ("relpath", "path") and sproot not in search:
         eff_search = [sproot] + search
     return {"id": cid, "tid": tree["tid"], "kind": "load", "by": by, "search": search, "eff_search": eff_search, "cwd": cwd, "objspec": objspec,
-            "syspath_add": [str(base / sp) for sp in tree["sps"]] if cid % 3 != 0 else [],
+            "syspath_add": [str(base / sp) for sp in tree["sps"]] if cid % 3 != 0 or by in ("stale_search", "default_search") else [],
+            "syspath_mode": "normalised" if by == "default_search" else "",
             "as_path": as_path, "opts": opts, "log": str(base / f"log-{cid}.txt"), "names": sorted({p["name"] for p in tree["pkgs"]} | {"ghost"})}
 
 
@@ -511,25 +525,52 @@ def run_case(c, griffe, L, I, Path):
     open(c["log"], "w").close()
     if "syspath" in c:
         sys.path[:] = c["syspath"]
+    if c.get("syspath_mode") == "normalised":
+        # what `python script.py` usually has: absolute, resolved, unique entries and no directory with .pth files
+        keep = []
+        for p in sys.path:
+            rp = os.path.realpath(p) if p else os.getcwd()
+            if rp in keep or "site-packages" in rp or "dist-packages" in rp:
+                continue
+            if os.path.isdir(rp) and any(x.endswith(".pth") for x in os.listdir(rp)):
+                continue
+            keep.append(rp)
+        sys.path[:] = keep
     if c.get("syspath_add"):        # the usual situation: the analysed packages are importable from the running interpreter
         sys.path[:0] = c["syspath_add"]
     orig = sys.path
     before = list(orig)
     mods_before = set(sys.modules)
-    events, loads, holder = [], [], {}
+    events, loads, holder, loaders, reads, current = [], [], {}, [], [], [None]
     GL = L.GriffeLoader
     def dotted(name, parent):
         return (parent.path + "." if parent is not None else "") + name
     ov, oi, oc, ol, oinit = GL._visit_module, GL._inspect_module, GL._create_module, GL.load, GL.__init__
+    def within(key, path, f):
+        old = current[0]
+        current[0] = (key, str(path))
+        try:
+            return f()
+        finally:
+            current[0] = old
     def v(self, module_name, module_path, parent=None):
-        events.append(["visit", dotted(module_name, parent), module_path.suffix]); return ov(self, module_name, module_path, parent)
+        events.append(["visit", dotted(module_name, parent), module_path.suffix])
+        return within([dotted(module_name, parent), module_path.suffix], module_path, lambda: ov(self, module_name, module_path, parent))
     def i(self, module_name, filepath=None, parent=None):
-        events.append(["inspect", dotted(module_name, parent), filepath.suffix if filepath is not None else ""]); return oi(self, module_name, filepath, parent)
+        sfx = filepath.suffix if filepath is not None else ""
+        events.append(["inspect", dotted(module_name, parent), sfx])
+        return within([dotted(module_name, parent), sfx], filepath, lambda: oi(self, module_name, filepath, parent))
+    ort = Path.read_text
+    def rt(self, *a, **kw):
+        if current[0] is not None and str(self) == current[0][1]:      # the loader reads the file of the module it is working on
+            reads.append(current[0][0])
+        return ort(self, *a, **kw)
+    Path.read_text = rt
     def cr(self, module_name, module_path):
         events.append(["create", module_name, ""]); return oc(self, module_name, module_path)
     depth = [0]
     def ld(self, objspec=None, /, **kw):
-        rec = [str(objspec), kw.get("try_relative_path", True), None, depth[0]]
+        rec = [str(objspec), kw.get("try_relative_path", True), None, depth[0], max(0, len(loaders) - 1), kw.get("submodules", True), kw.get("find_stubs_package", False)]
         loads.append(rec)
         depth[0] += 1
         try:
@@ -540,12 +581,27 @@ def run_case(c, griffe, L, I, Path):
             depth[0] -= 1
     def init(self, *a, **kw):
         oinit(self, *a, **kw); holder.setdefault("loader", self)
+        sp = kw.get("search_paths")
+        loaders.append({"obj": self, "allow": self.allow_inspection, "force": self.force_inspection, "store": self.store_source,
+                        "given": None if sp is None else [str(x) for x in sp], "finder": [str(x) for x in self.finder.search_paths],
+                        "events_at": len(events), "loads_at": len(loads), "syspath_at": list(sys.path)})
     GL._visit_module, GL._inspect_module, GL._create_module, GL.load, GL.__init__ = v, i, cr, ld, init
     res = {}
     try:
         if c["kind"] == "load":
             objspec = Path(c["objspec"]) if c["as_path"] else c["objspec"]
             griffe.load(objspec, search_paths=c["search"], **c["opts"])
+        elif c["kind"] == "load_git":
+            objspec = Path(c["objspec"]) if c["as_path"] else c["objspec"]
+            griffe.load_git(objspec, ref=c["ref"], repo=c["repo"], search_paths=c["search_rel"], **c["call_opts"])
+        elif c["kind"] == "cli":
+            with open(os.devnull, "w") as null:
+                saved = sys.stdout, sys.stderr
+                sys.stdout = sys.stderr = null
+                try:
+                    res["value"] = griffe.main(list(c["argv"]))
+                finally:
+                    sys.stdout, sys.stderr = saved
         elif c["kind"] == "dynamic_import":
             val = griffe.dynamic_import(c["objspec"], c["search"] or None)
             res["value"] = getattr(val, "__name__", repr(type(val)))
@@ -557,6 +613,8 @@ def run_case(c, griffe, L, I, Path):
         res["family"] = ("import" if isinstance(e, ImportError) else "loading" if isinstance(e, griffe.LoadingError) else
                          "filenotfound" if isinstance(e, FileNotFoundError) else "exit" if isinstance(e, (SystemExit, KeyboardInterrupt)) else "other")
         res["message"] = str(e)[:300]
+    Path.read_text = ort
+    res["before"] = before
     res["path_same_object"] = sys.path is orig
     res["path_same_contents"] = list(sys.path) == before
     res["orig_contents_same"] = list(orig) == before
@@ -567,17 +625,21 @@ def run_case(c, griffe, L, I, Path):
     res["execs"] = [json.loads(l) for l in open(c["log"])]
     res["events"] = events
     res["loads"] = loads
+    res["reads"] = reads
     loaded = []
-    ld_ = holder.get("loader")
-    if ld_ is not None:
-        def walk(m):
-            loaded.append(m.path)
-            for sub in m.members.values():
-                if not sub.is_alias and sub.is_module:
-                    walk(sub)
-        for m in ld_.modules_collection.members.values():
-            walk(m)
-    res["loaded"] = sorted(loaded)
+    def walk(m, acc):
+        acc.append(m.path)
+        for sub in m.members.values():
+            if not sub.is_alias and sub.is_module:
+                walk(sub, acc)
+    for rec in loaders:
+        acc = []
+        for m in rec.pop("obj").modules_collection.members.values():
+            walk(m, acc)
+        rec["loaded"] = sorted(acc)
+        loaded += acc
+    res["loaders"] = loaders
+    res["loaded"] = sorted(set(loaded))
     return res
 
 def main():
@@ -644,9 +706,17 @@ def run_cases(ctx, cases, tag):
     runner = ctx.scratch / "c15_runner.py"
     runner.write_text(RUNNER)
     n = min(12, max(1, len(cases) // 8))
-    shards = [cases[i::n] for i in range(n)]
+    # the cases of one layout stay in one process: they share a git repository (worktree add / remove take its locks)
+    tids = {}
+    for c in cases:
+        tids.setdefault(c.get("tid"), len(tids))
+    shards = [[c for c in cases if tids[c.get("tid")] % n == i] for i in range(n)]
+    shards = [sh for sh in shards if sh]
+    tmp = ctx.scratch / "tmp"          # load_git checks its worktrees out under the temporary directory
+    tmp.mkdir(exist_ok=True)
     env = {"PATH": os.environ.get("PATH", ""), "PYTHONPATH": str(REPO / "src"), "PYTHONHASHSEED": "0", "PYTHONDONTWRITEBYTECODE": "1",
-           "C15_GRIFFE_SRC": os.path.realpath(REPO / "src"), "HOME": os.environ.get("HOME", "/root")}
+           "C15_GRIFFE_SRC": os.path.realpath(REPO / "src"), "HOME": os.environ.get("HOME", "/root"), "TMPDIR": str(tmp),
+           "GIT_CONFIG_GLOBAL": os.devnull, "GIT_CONFIG_SYSTEM": os.devnull}
     if os.environ.get("C15_MUTANT"):
         env["C15_MUTANT"] = os.environ["C15_MUTANT"]
     procs = []
@@ -665,6 +735,112 @@ def run_cases(ctx, cases, tag):
                 o = json.loads(line)
                 obs[o["id"]] = o
     return obs
+
+
+
+# ------------------------------------------------------------------------------------------------ the other ways in: load_git, `griffe dump`, `griffe check`
+GIT_ENV = {"GIT_CONFIG_GLOBAL": os.devnull, "GIT_CONFIG_SYSTEM": os.devnull}
+
+
+def git_repo(base: Path, tags):
+    """commit the generated layout (compiled files included) and tag it once per case (a temporary branch is named after the reference)"""
+    env = dict(os.environ, **GIT_ENV)
+
+    def g(*a):
+        subprocess.run(["git", "-C", str(base), "-c", "user.name=c15", "-c", "user.email=c15@example.invalid", *a], check=True, env=env,
+                       stdout=subprocess.DEVNULL, stderr=subprocess.DEVNULL)
+    g("init", "-q")
+    g("add", "-f", ".")
+    g("commit", "-q", "--allow-empty", "-m", "generated layout")
+    for t in tags:
+        g("tag", t)
+
+
+def cli_user_opts(argv):
+    """the options as the command line parser hands them to dump / check"""
+    import _griffe.cli as C
+    ns = vars(C.get_parser().parse_args(list(argv)))
+    return {"allow_inspection": ns["allow_inspection"], "force_inspection": ns["force_inspection"], "submodules": True, "try_relative_path": True,
+            "find_stubs_package": ns.get("find_stubs_package", False), "resolve_aliases": ns.get("resolve_aliases", True),
+            "resolve_external": ns.get("resolve_external", None), "resolve_implicit": ns.get("resolve_implicit", False)}
+
+
+def make_entry_case(base, tree, cid, opts, entry):
+    root, rootpkg, sps = tree["root"], tree["pkgs"][0], tree["sps"]
+    c = {"id": cid, "tid": tree["tid"], "by": entry, "entry": entry, "cwd": str(base / "cwd"), "log": str(base / f"log-{cid}.txt"),
+         "names": sorted({p["name"] for p in tree["pkgs"]} | {"ghost"}), "syspath_add": [str(base / sp) for sp in sps] if cid % 3 else [],
+         "syspath_mode": "", "search": None, "eff_search": None, "as_path": False, "objspec": root, "tags": [f"c{cid}"]}
+    flags = ([] if opts["allow_inspection"] else ["-X"]) + (["-x"] if opts["force_inspection"] else []) + (["-B"] if opts["find_stubs_package"] else [])
+    if entry == "load_git":
+        as_path = rootpkg["kind"] in ("regular", "namespace", "stubpkg") and cid % 4 == 0
+        call = {k: opts[k] for k in ("allow_inspection", "force_inspection", "submodules", "find_stubs_package", "resolve_aliases", "resolve_external", "resolve_implicit")}
+        c.update(kind="load_git", repo=str(base), ref=f"c{cid}", objspec=f"{rootpkg['sp']}/{root}" if as_path else root, as_path=as_path,
+                 search_rel=list(sps), call_opts=call, opts=dict(opts, try_relative_path=False))
+    elif entry == "dump":
+        default_search = cid % 5 == 0      # no -s: GriffeLoader(search_paths=[]) takes sys.path
+        pkgs = [root] + (["ext1"] if cid % 2 and any(p["name"] == "ext1" for p in tree["pkgs"]) else [])
+        argv = ["dump", *pkgs, "-o", os.devnull] + flags + (["-r"] if opts["resolve_aliases"] else []) + (["-I"] if opts["resolve_implicit"] else []) \
+            + (["-U"] if opts["resolve_external"] else ["--no-resolve-external"] if opts["resolve_external"] is False else [])
+        if default_search:
+            c.update(syspath_add=[str(base / sp) for sp in sps], syspath_mode="normalised")
+        else:
+            for sp in sps:
+                argv += ["-s", str(base / sp)]
+        c.update(kind="cli", argv=argv, opts=cli_user_opts(argv), packages=pkgs)
+    else:       # `griffe check`: the old reference through load_git, the new one from a reference or from the working tree
+        argv = ["check", root, "-a", f"c{cid}"] + (["-b", f"c{cid}b"] if entry == "check_ref" else []) + flags
+        for sp in sps:
+            argv += ["-s", sp]       # relative: load_git joins them to the worktree, load resolves them from the repository root
+        c.update(kind="cli", argv=argv, opts=cli_user_opts(argv), cwd=str(base), tags=[f"c{cid}", f"c{cid}b"])
+    return c
+
+
+def request_trees(loads):
+    """the nesting of GriffeLoader.load calls (name, depth in call order) as request trees"""
+    roots, stack = [], []
+    for c in loads:
+        node = [c[0], []]
+        d = c[3]
+        del stack[d:]
+        (stack[-1][1] if stack else roots).append(node)
+        stack.append(node)
+    return roots
+
+
+def resolved_in(paths, cwd):
+    return resolved_unique([p if os.path.isabs(p) else os.path.join(cwd, p) for p in paths])
+
+
+def phases_of(base, tree, case, obs):
+    """the loaders an entry point built, each with the loads made on it (the model's phases)"""
+    entry, out = case["entry"], []
+    for k, ld in enumerate(obs["loaders"]):
+        loads = [c for c in obs["loads"] if c[4] == k]
+        ep = {"load_git": "load_git", "dump": "dump"}.get(entry) or ("check_old" if k == 0 else "check_new_ref" if entry == "check_ref" else "check_new_tree")
+        given = resolved_in(ld["given"] or [], case["cwd"])
+        if ep in ("load_git", "check_old", "check_new_ref"):
+            wbase = Path(given[0]).parent if given else base          # the temporary worktree
+        else:
+            wbase = base
+        order = {}
+        for i, e in enumerate(obs["events"][ld["events_at"]:]):
+            order.setdefault((e[1], e[2]), i)
+        # find_stubs_package as this loader's own root load received it (`griffe check` does not pass it for the old reference)
+        wcase = dict(case, by="name", opts=dict(case["opts"], find_stubs_package=bool(loads[0][6]) if loads else False))
+        trees = request_trees(loads)
+        if trees and ep != "dump":
+            trees[0][0] = tree["root"]      # the root may have been given as a path
+        world = world_of(wbase, tree, wcase, order)
+        if ep == "dump":       # one load per package (try_relative_path=True), then the re-entries of alias resolution
+            roots = [t for t, c in zip(trees, [c for c in loads if c[3] == 0]) if c[1] is not False]
+            later = [t for t, c in zip(trees, [c for c in loads if c[3] == 0]) if c[1] is False]
+            for t in roots:
+                out.append([ep, world, [parts_of(x) for x in given], [], True, [t], []])
+            if later:
+                out.append([ep, world, [parts_of(x) for x in given], [], True, [], later])
+        else:
+            out.append([ep, world, [parts_of(x) for x in given], [], case["opts"]["submodules"], trees[:1], trees[1:]])
+    return out
 
 
 # ------------------------------------------------------------------------------------------------ expected re-entries
@@ -761,27 +937,47 @@ def root_key(tree, case):
     return "<missing-path>" if case["by"] == "missing_path" else (case.get("builtin") or tree["root"])
 
 
-def model_input(base, tree, case, reqs, obs=None):
+def model_input(base, tree, case, reqs, obs):
     o = case["opts"]
-    nested = [c[0] for c in (obs or {}).get("loads", [])[1:] if c[3] > 0]
-    reqs = [c[0] for c in (obs or {}).get("loads", [])[1:] if c[3] == 0] if obs else list(reqs)
+    before = obs.get("before") or ["<orig>"]
+    syspath = [parts_of(x) for x in before]
+    if case.get("entry"):
+        return ["entry", o["allow_inspection"], o["force_inspection"], True, phases_of(base, tree, case, obs), syspath]
     order = {}
-    for i, e in enumerate((obs or {}).get("events", [])):
+    for i, e in enumerate(obs.get("events", [])):
         order.setdefault((e[1], e[2]), i)
-    return ["session", o["allow_inspection"], o["force_inspection"], o["submodules"], [parts_of(s) for s in case["eff_search"]],
-            world_of(base, tree, case, order), nested, root_key(tree, case), list(reqs), [["<orig>"]]]
+    trees = request_trees(obs.get("loads", []))
+    if trees:
+        trees[0][0] = root_key(tree, case)
+    given = [] if case["search"] is None else resolved_unique(case["search"])
+    front = [x for x in (case["eff_search"] or []) if x not in given] if case["search"] is not None else []
+    ph = ["load", world_of(base, tree, case, order), [parts_of(x) for x in given], [parts_of(x) for x in front], o["submodules"], trees[:1], trees[1:]]
+    return ["entry", o["allow_inspection"], o["force_inspection"], True, [ph], syspath]
 
 
-def canon_model(out, names):
+def resolved_unique(paths):
+    """ModuleFinder.__init__ / append_search_path: resolved, first occurrence kept"""
+    out = []
+    for p in paths:
+        r = str(Path(p).resolve())
+        if r not in out:
+            out.append(r)
+    return out
+
+
+def canon_model(out, names, before=("<orig>",)):
     res, events, mods, cur_same, heap0, _ = out
     ev = Counter()
     execs = Counter()
     skipped = Counter()
     agents = []
     done = Counter()
+    reads = Counter()
     for e in events:
         if e[0] == "done":
             done[(e[1], e[2])] += 1
+        elif e[0] == "read":
+            reads[(".".join(e[1]), e[2])] += 1
         elif e[0] == "exec":
             execs[(".".join(e[1]), tuple(str(Path(*p)) if p else "" for p in e[2]))] += 1
         elif e[0] in ("skip", "orphan"):
@@ -792,21 +988,39 @@ def canon_model(out, names):
             ev[(e[0], ".".join(e[1]), e[2] if len(e) > 2 else "")] += 1
     tried = Counter((n, s) for a, n, s in agents)
     loaded = {n for (n, s), k in tried.items() if "." in n and k > skipped[(n, s)]} | {t for (t, r), k in done.items() if r == "ok"}
-    return {"result": res, "outcomes": done, "agents": Counter(agents), "execs": execs, "loaded": loaded,
-            "mods": {".".join(m) for m in mods if m[0] in names}, "restored": bool(cur_same) and heap0 == [["<orig>"]],
+    return {"result": res, "outcomes": done, "agents": Counter(agents), "execs": execs, "loaded": loaded, "reads": reads,
+            "mods": {".".join(m) for m in mods if m[0] in names}, "restored": bool(cur_same) and heap0 == [parts_of(s) for s in before],
             "skips": {k for k in ev if k[0] == "skip"}, "orphans": {k for k in ev if k[0] == "orphan"}}
 
 
-def canon_obs(o, rootkey=None):
-    return {"result": o["result"], "agents": Counter(tuple(e) for e in o["events"]),
-            "outcomes": Counter((rootkey if i == 0 and rootkey else c[0], c[2]) for i, c in enumerate(o.get("loads", []))),
+def root_indices(case, o):
+    """which GriffeLoader.load calls are the entry point's own (the others are re-entries)"""
+    loads = o.get("loads", [])
+    if case.get("entry") == "dump":
+        return {i for i, c in enumerate(loads) if c[3] == 0 and c[1] is not False}
+    first = {}
+    for i, c in enumerate(loads):
+        first.setdefault(c[4], i)
+    return set(first.values())
+
+
+def canon_obs(o, rootkey=None, roots=(0,)):
+    result = o["result"]
+    if result != "ok" and o.get("through_loader") is False:
+        result = "ok"          # raised by what the command does with the loaded trees (serialising, diffing), not by a load
+    return {"result": result, "agents": Counter(tuple(e) for e in o["events"]), "reads": Counter(tuple(r) for r in o.get("reads", [])),
+            "outcomes": Counter((rootkey if i in roots and rootkey else c[0], c[2]) for i, c in enumerate(o.get("loads", []))),
             "execs": Counter((e["exec"], tuple(e["path"])) for e in o["execs"]), "loaded": set(o["loaded"]), "mods": set(o["newmods"]),
             "restored": o["path_same_object"] and o["path_same_contents"] and o["orig_contents_same"]}
 
 
 def in_alphabet(tree):
-    """no fault outside the property's alphabet (a walk that raises something else than SystemExit)"""
-    return not any(m["walk"] == "RuntimeError" for p in tree["pkgs"] for m in p["mods"])
+    """walking an imported module only raises what the handlers of _inspect_module / _load_module convert (C15_failures_classified)"""
+    return not any(m["walk"] and m["walk"] not in CONVERTED_WALK for p in tree["pkgs"] for m in p["mods"])
+
+
+def walk_interrupts(tree):
+    return any(m["walk"] == "KeyboardInterrupt" for p in tree["pkgs"] for m in p["mods"])
 
 
 def check_load(ctx, base, tree, case, o, G, use_model, batch):
@@ -838,7 +1052,7 @@ def check_load(ctx, base, tree, case, o, G, use_model, batch):
     if not (o["path_same_object"] and o["path_same_contents"] and o["orig_contents_same"]):
         ctx.property_failure(k, {"sys.path not restored": {x: o[x] for x in ("path_same_object", "path_same_contents", "orig_contents_same", "orig_now")},
                                  "result": o["result"]})
-    if o["result"] in ("SystemExit", "KeyboardInterrupt"):
+    if o["result"] == "SystemExit" or (o["result"] == "KeyboardInterrupt" and not walk_interrupts(tree)):
         ctx.property_failure(k, {"exit escaped load": o["result"], "message": o.get("message")})
     if static:
         if o["execs"] or o["hits"]:
@@ -853,17 +1067,19 @@ def check_load(ctx, base, tree, case, o, G, use_model, batch):
         if leaked:
             ctx.property_failure(k, {"compiled module loaded although inspection is disallowed": sorted(leaked)})
         ctx.observe("static_compiled_present", bool(compiled))
-    elif in_alphabet(tree) and o["result"] != "ok":
+    elif in_alphabet(tree) and o["result"] != "ok" and o.get("through_loader") is not False:
         finder_errors = {"FileNotFoundError"} if case["by"] == "missing_path" else set()
         if any(p["kind"] == "regular" and m["kind"] == "init" and len(m["parts"]) == 1 and m["vfault"] == "unicode" for p in tree["pkgs"] for m in p["mods"]):
             finder_errors.add("UnicodeDecodeError")    # raised by the finder before any loading starts; not an import-time failure
         if o.get("family") not in ("import", "loading") and o["result"] not in finder_errors:
             ctx.property_failure(k, {"failure is neither ImportError nor LoadingError": o["result"], "message": o.get("message")})
     # ---- re-entries
-    root_call, re_calls = o["loads"][0] if o["loads"] else None, o["loads"][1:]
+    roots = root_indices(case, o)
+    re_calls = [c for i, c in enumerate(o["loads"]) if i not in roots]
     outcomes = {c[0]: c[2] for c in re_calls}
     reqs = [c[0] for c in re_calls]
-    if o["result"] == "ok" and not case.get("builtin"):
+    ctx.observe("load_nesting_depth", max([c[3] for c in o["loads"]] or [0]))
+    if o["result"] == "ok" and not case.get("builtin") and len(roots) == 1:
         f = found_of(base, tree, tree["root"], opts["find_stubs_package"], hidden=case["by"] == "hidden")
         exp = expected_reentries(tree, case, outcomes, G, root_has_stubs=f[0] == "pkg" and bool(f[3]))
         if sorted(exp) != sorted(reqs):
@@ -873,33 +1089,67 @@ def check_load(ctx, base, tree, case, o, G, use_model, batch):
             ctx.observe("reentry_target", n if n in ("ghost",) or n.startswith("_") else "ext")
     if any(c[1] is not False for c in re_calls):
         ctx.tie_failure("correspondence", "re-entrant load called with try_relative_path != False", re_calls, k)
-    if use_model:
+    if use_model and not case.get("no_model"):
         batch.append((tree, case, o, reqs))
+
+
+def entry_name(case, k):
+    e = case.get("entry")
+    return "load" if not e else e if e in ("load_git", "dump") else "check_old" if k == 0 else "check_new_ref" if e == "check_ref" else "check_new_tree"
+
+
+def check_entry_ties(ctx, batch):
+    """what reaches GriffeLoader from each entry point: the inspection options as Gen's entry tables forward them, the finder's search paths"""
+    qs, meta = [], []
+    for tree, case, o, _ in batch:
+        opts = case["opts"]
+        for k, ld in enumerate(o.get("loaders", [])):
+            ep = entry_name(case, k)
+            given = resolved_in(ld["given"] or [], case["cwd"])
+            qs.append(["finder", [parts_of(x) for x in given], [parts_of(x) for x in ld["syspath_at"]]])
+            meta.append(("finder", tree, case, ld, ep))
+            qs.append(["entry_flags", ep, opts["allow_inspection"], opts["force_inspection"], True, opts["submodules"]])
+            meta.append(("flags", tree, case, (ld, [c[5] for i, c in enumerate(o["loads"]) if c[4] == k and i in root_indices(case, o)]), ep))
+    for (what, tree, case, x, ep), out in zip(meta, ctx.model(qs) if qs else []):
+        k = fail_key(tree, case)
+        if what == "finder":
+            ctx.observe("finder_paths", "sys.path" if not x["given"] else "given")
+            if out != [parts_of(p) for p in x["finder"]]:
+                ctx.tie_failure("correspondence", "finder_paths(model) vs ModuleFinder.search_paths after __init__",
+                                {"model": [str(Path(*p)) for p in out], "impl": x["finder"], "given": x["given"]}, k)
+        else:
+            ld, subm = x
+            ctx.observe("entry_point", ep)
+            got = [int(ld["allow"]), int(ld["force"]), int(ld["store"])]
+            if out[:3] != got or any(int(bool(v)) != out[3] for v in subm):
+                ctx.tie_failure("correspondence", f"entry_allow/force/store/submodules(model) vs what {ep} hands to GriffeLoader",
+                                {"model": out[:4], "impl": got + [subm]}, k)
 
 
 def compare_models(ctx, base_of, batch):
     if not batch:
         return
+    check_entry_ties(ctx, batch)
     outs = ctx.model([model_input(base_of(t), t, c, reqs, o) for t, c, o, reqs in batch])
     for (tree, case, o, reqs), out in zip(batch, outs):
         k = fail_key(tree, case)
         if out == ["bad-input"]:
             ctx.tie_failure("harness", "model rejected the input", None, k)
             continue
-        m = canon_model(out, set(case["names"]) | ({case["builtin"]} if case.get("builtin") else set()))
-        r = canon_obs(o, root_key(tree, case))
+        m = canon_model(out, set(case["names"]) | ({case["builtin"]} if case.get("builtin") else set()), o.get("before") or ["<orig>"])
+        r = canon_obs(o, root_key(tree, case) if case.get("entry") != "dump" else None, root_indices(case, o))
         if case.get("builtin"):
             m["mods"] -= {case["builtin"]}
             r["loaded"] -= {x for x in r["loaded"] if x != case["builtin"]}
-        diff = {f: {"model": _show(m[f]), "impl": _show(r[f])} for f in ("result", "outcomes", "agents", "loaded", "execs", "mods", "restored")
-                if m[f] != r[f] and not (f == "loaded" and r["result"] != "ok")}
+        diff = {f: {"model": _show(m[f]), "impl": _show(r[f])} for f in ("result", "outcomes", "agents", "reads", "loaded", "execs", "mods", "restored")
+                if m[f] != r[f] and not (f == "loaded" and (r["result"] != "ok" or len(o.get("loaders", [])) > 1))}
         for s in m["skips"]:
             ctx.observe("model_branch", "skip" + s[2])
         for s in m["orphans"]:
             ctx.observe("model_branch", "orphan")
         ctx.observe("model_branch", "result:" + m["result"])
         if diff:
-            ctx.tie_failure("correspondence", "session(model) vs griffe.load in a clean interpreter", diff, k)
+            ctx.tie_failure("correspondence", f"run_phases(model) vs griffe {case.get('entry') or 'load'} in a clean interpreter", diff, k)
 
 
 def _show(v):
@@ -918,7 +1168,7 @@ def check_tables(ctx):
     import _griffe.loader as L
     import griffe
     # exception ancestry (oracle)
-    real = {"LoadingError": griffe.LoadingError}
+    real = {"LoadingError": griffe.LoadingError, "PanicException": type("PanicException", (BaseException,), {})}
     rows = ctx.model([["ancestors", e] for e in ALL_EXN])
     for e, anc in zip(ALL_EXN, rows):
         cls = real.get(e) or getattr(__import__("builtins"), e)
@@ -1098,7 +1348,8 @@ def build_cases(ctx, base_root, n_random, per_tree_static, per_tree_dyn, with_sy
         systematic = t["tid"].startswith("s")
         combos = []
         for _ in range(per_tree_static if not systematic else 2):
-            combos.append((static_opts(rng), rng.choice(["name", "name", "relpath", "path", "hidden", "missing_path"] if not systematic else ["name", "path"])))
+            combos.append((static_opts(rng), rng.choice(["name", "name", "relpath", "path", "hidden", "missing_path", "stale_search", "default_search"]
+                                                        if not systematic else ["name", "path", "default_search"])))
         dyn_flags = [(True, False), (False, True), (True, True)]
         # layouts whose import statements are not under a false guard would run nested imports when imported: static only
         n_dyn = (per_tree_dyn if not systematic else 3) if t["pkgs"][0]["guard"] or not t["pkgs"][0]["deps"] else 0
@@ -1109,10 +1360,35 @@ def build_cases(ctx, base_root, n_random, per_tree_static, per_tree_dyn, with_sy
             a, f = dyn_flags[j % 3] if systematic else rng.choice(dyn_flags)
             o = static_opts(rng)
             o.update(allow_inspection=a, force_inspection=f)
-            combos.append((o, rng.choice(["name", "name", "name", "path", "relpath", "hidden", "missing_path"] if not systematic else ["name"])))
+            combos.append((o, rng.choice(["name", "name", "name", "path", "relpath", "hidden", "missing_path", "stale_search", "default_search", "default_search"]
+                              if not systematic else ["name"])))
+        if systematic and n_dyn:
+            # the restore protocol when the finder's search paths are sys.path itself, and when none of them exists
+            o = static_opts(rng)
+            o.update(allow_inspection=True, force_inspection=rng.random() < 0.7)
+            combos.append((o, "default_search"))
+            o = static_opts(rng)
+            o.update(allow_inspection=True, force_inspection=rng.random() < 0.3)
+            combos.append((o, "stale_search"))
         for o, by in combos:
             cases.append((t, make_case(base, t, cid, o, by)))
             cid += 1
+        # the other entry points: load_git, `griffe dump`, `griffe check` (old reference + new reference / working tree)
+        if (not systematic and rng.random() < 0.35) or (systematic and int(t["tid"][1:]) % 4 == 0):
+            ecases = []
+            for j in range(2):
+                o = static_opts(rng)
+                if j == 1 and n_dyn:
+                    a, f = rng.choice(dyn_flags)
+                    o.update(allow_inspection=a, force_inspection=f)
+                entry = rng.choice(["load_git", "load_git", "load_git", "dump", "dump", "check_tree", "check_ref"])
+                c = make_entry_case(base, t, cid, o, entry)
+                cid += 1
+                if entry.startswith("check") and (c["opts"]["allow_inspection"] or c["opts"]["force_inspection"]):
+                    c["no_model"] = True      # modules imported from the first (removed) worktree stay in sys.modules: outside the model
+                ecases.append(c)
+            git_repo(base, [tag for c in ecases for tag in c["tags"]])
+            cases += [(t, c) for c in ecases]
         if not systematic and n_dyn:
             ic = importer_cases(base, t, cid, rng, 3)
             imp_cases += [(t, c) for c in ic]
@@ -1187,6 +1463,8 @@ def replay(ctx, data):
     ctx.scratch.mkdir(parents=True, exist_ok=True)
     base = ctx.scratch / "replay" / str(tree["tid"])
     write_tree(base, tree)
+    if case.get("tags"):
+        git_repo(base, case["tags"])
     old = os.path.dirname(case["log"])
     case = json.loads(json.dumps(case).replace(old, str(base)))
     obs = run_cases(ctx, [case], "replay").get(case["id"], {})
